@@ -200,7 +200,12 @@ void DOMElementNSImpl::setName(const XMLCh *namespaceURI,
                                const XMLCh *qualifiedName)
 {
     DOMDocumentImpl* ownerDoc = (DOMDocumentImpl *) fParent.fOwnerDocument;
-    this->fName = ownerDoc->getPooledString(qualifiedName);
+
+    // Work on local copies: if the name is rejected, the node has to keep
+    // the names it has (this is also used to rename an existing element)
+    const XMLCh* name = ownerDoc->getPooledString(qualifiedName);
+    const XMLCh* prefix;
+    const XMLCh* localName;
 
     int index = DOMDocumentImpl::indexofQualifiedName(qualifiedName);
     if (index < 0)
@@ -210,27 +215,30 @@ void DOMElementNSImpl::setName(const XMLCh *namespaceURI,
     {
         //qualifiedName contains no ':'
         //
-        fPrefix = 0;
-        fLocalName = fName;
+        prefix = 0;
+        localName = name;
     }
     else
     {	//0 < index < this->name.length()-1
         //
-        fPrefix = ownerDoc->getPooledNString(qualifiedName, index);
-        fLocalName = ownerDoc->getPooledString(fName+index+1);
+        prefix = ownerDoc->getPooledNString(qualifiedName, index);
+        localName = ownerDoc->getPooledString(name+index+1);
 
         // Before we carry on, we should check if the prefix or localName are valid XMLName
-        if (!ownerDoc->isXMLName(fPrefix) || !ownerDoc->isXMLName(fLocalName))
+        if (!ownerDoc->isXMLName(prefix) || !ownerDoc->isXMLName(localName))
           throw DOMException(DOMException::NAMESPACE_ERR, 0, GetDOMNodeMemoryManager);
     }
 
     // DOM Level 3: namespace URI is never empty string.
     //
     const XMLCh * URI = DOMNodeImpl::mapPrefix (
-      fPrefix,
+      prefix,
       (!namespaceURI || !*namespaceURI) ? 0 : namespaceURI,
       DOMNode::ELEMENT_NODE);
 
+    fName = name;
+    fPrefix = prefix;
+    fLocalName = localName;
     fNamespaceURI = (URI == 0) ? 0 : ownerDoc->getPooledString(URI);
 }
 
